@@ -23,7 +23,7 @@ for p in props:
         "engine": "vfy",
         "level_claimed": {"category": "proof", "text": c['text'], "design_ref": c.get('design_ref', 'DESIGN.md section 3')},
         "level_note": c['note'],
-        "technique": c.get('technique', 'contract-based deductive verification: VC generation over go/ssa of the real code, contracts in build-tagged comment files, obligations discharged by z3/cvc5'),
+        "technique": c.get('technique', 'contract-based deductive verification: VC generation over go/ssa of the real code (no extraction: the SSA of /repo is what is executed symbolically), contracts in build-tagged comment files, compositions and inductions as lemma functions (real Go code under the build tag), obligations discharged by z3 5.1 / z3 4.8.12 / cvc5; the thorough tier repeats the proof with a 60 s budget and cvc5 and additionally applies every recorded property-breaking change (seeded/*/patch.diff) to a scratch copy of the tree under test and requires the quick check to detect it'),
     })
 m = {
     "version": 1,
